@@ -11,7 +11,10 @@
 (* whatever the record ends with (no newline needed to push it out), in the   *)
 (* coloured and the plain writer alike.  The replay writes a marker to the    *)
 (* file descriptor itself after every append and expects record, marker,      *)
-(* record, marker, ... on the stream.                                         *)
+(* record, marker, ... on the stream.  Whether the target is a terminal is    *)
+(* read when an appender is built: after the stream has been re-pointed (at a *)
+(* file, in the replay) an appender built then is Writes / Coloured of the    *)
+(* row with that stream not a terminal.                                       *)
 (***************************************************************************)
 EXTENDS Integers, Sequences, FiniteSets, TLC
 EnvVals == {"unset", "0", "1"}
